@@ -23,7 +23,7 @@ CHECKS = {
          'Seeded configurations of 0..10 listeners over the four classes with 0..3 type filters from a hierarchy (abstract super-classes, unrelated classes), random IgnorePacket subsets (also for the set-compression packet, with a server that keeps the old framing when the reaction is suppressed), incoming listeners that write a forced packet during dispatch, x login and play packet histories x queued/forced user writes. A reference dispatcher predicts the global incoming call log and, per outgoing packet, early calls / written? / ordinary calls; byte offsets of the client stream at each callback decide before/after-the-write; the built-in reaction is placed between the stages through its observable effects.',
          'DESIGN.md 3/C13'),
  'C14': ('fault_enumeration', 'enumeration of fault origins x handler chains x final-handler modes under deterministic simulation against a reference try/except model',
-         '15 fault origins (listeners in status/login/play, login-disconnect and status-JSON reactions, five malformed-body decoder faults, outgoing listener in the write phase, exit callback) x 5 final-handler modes x all chains of length <= 2 over 7 handler kinds are enumerated (4275 cases); longer chains with random filters, early flags and return/raise/reconnect behaviour are sampled; varied gaps before the server's own disconnect, slow and persistently failing listeners. Oracle: handler call sequence with exception identity, recorded exception/exc_info, re-raise from the thread (captured by the scheduler), connection closed unless reconnected, and a fresh connect() afterwards.',
+         '15 fault origins (listeners in status/login/play, login-disconnect and status-JSON reactions, five malformed-body decoder faults, outgoing listener in the write phase, exit callback) x 5 final-handler modes x all chains of length <= 2 over 7 handler kinds are enumerated (4275 cases); longer chains with random filters, early flags and return/raise/reconnect behaviour are sampled; varied gaps before the disconnect packet of the server, slow and persistently failing listeners. Oracle: handler call sequence with exception identity, recorded exception/exc_info, re-raise from the thread (captured by the scheduler), connection closed unless reconnected, and a fresh connect() afterwards.',
          'DESIGN.md 3/C14'),
  'C18': ('exploration', 'seeded stream/partition search under deterministic simulation against an independent AES-128-CFB8 (single-block ECB) and raw-RSA PKCS#1 v1.5 peer',
          'One or two consecutive encrypted logins (1024/2048-bit keys, tokens of 1..64 bytes, optional compression) followed by up to several KiB of traffic per direction under tape-chosen segmentation and short reads, (the second login after disconnect() or started by the exception handler), two Connection objects writing concurrently, a stretch of the live inbound stream read through mixed connection.socket.recv()/file_object.read() calls, plus wrapper-level runs driving EncryptedSocketWrapper.send/recv and EncryptedFileObjectWrapper.read with random splits and an injected EAGAIN. Oracle: byte equality of the wire ciphertext with an independent CFB8(key=IV=secret) encryption of the expected plaintext as one continuous stream, content equality of both decrypted directions, secrets fresh per login, secret and token recovered exactly by raw RSA + un-padding.',
